@@ -1,6 +1,7 @@
 package main
 
 import (
+	"encoding/json"
 	"fmt"
 	"strings"
 	"time"
@@ -33,6 +34,48 @@ type naVal struct {
 	Params  []naParam
 	Gaps    []string
 	Star    bool
+}
+
+// JSON forms that keep non-UTF-8 bytes (see bstr)
+type naParamJ struct {
+	Name, Val bstr
+	HasEq     bool
+}
+
+func (p naParam) MarshalJSON() ([]byte, error) {
+	return json.Marshal(naParamJ{bstr(p.Name), bstr(p.Val), p.HasEq})
+}
+
+func (p *naParam) UnmarshalJSON(d []byte) error {
+	var j naParamJ
+	if err := json.Unmarshal(d, &j); err != nil {
+		return err
+	}
+	*p = naParam{string(j.Name), string(j.Val), j.HasEq}
+	return nil
+}
+
+type naValJ struct {
+	Disp    bstr
+	URI     bstr
+	Bracket bool
+	Inner   bstr
+	Params  []naParam
+	Gaps    []string
+	Star    bool
+}
+
+func (v naVal) MarshalJSON() ([]byte, error) {
+	return json.Marshal(naValJ{bstr(v.Disp), bstr(v.URI), v.Bracket, bstr(v.Inner), v.Params, v.Gaps, v.Star})
+}
+
+func (v *naVal) UnmarshalJSON(d []byte) error {
+	var j naValJ
+	if err := json.Unmarshal(d, &j); err != nil {
+		return err
+	}
+	*v = naVal{string(j.Disp), string(j.URI), j.Bracket, string(j.Inner), j.Params, j.Gaps, j.Star}
+	return nil
 }
 
 type naExp struct {
@@ -394,6 +437,7 @@ func evalC09(cs *c09Case) (vs []*Violation) {
 		c.Extra = map[string]any{"case": cs}
 		vs = append(vs, &Violation{Property: "C09", Site: site, Rule: rule, Class: class, Detail: detail, Case: c})
 	}
+	defer recoverTo3(add)
 	if !cs.Via {
 		// direct: one value per call, looping on more-values
 		offs := 0
@@ -604,6 +648,34 @@ func checkC09(r *Run) {
 		}
 		r.St.merge(c0.st)
 	}
+	// every byte value in the places where arbitrary text is legal: inside a quoted display name (plain and as a
+	// quoted pair), inside a quoted parameter value, inside the URI (bytes that are not delimiters of the value)
+	parallelFor(r, 256, func(c *enumCtx, x int) {
+		xs := string([]byte{byte(x)})
+		var vals []naVal
+		if x != '\r' && x != '\n' {
+			if x != '"' && x != '\\' && (x >= 0x20 || x == '\t') && x != 0x7f {
+				vals = append(vals, naVal{Disp: "\"a" + xs + "b\"", URI: "sip:a@b", Bracket: true, Params: []naParam{{"tag", "T", true}}},
+					naVal{URI: "sip:a@b", Bracket: true, Params: []naParam{{"x", "\"v" + xs + "w\"", true}, {"tag", "T", true}}})
+			}
+			if x < 0x80 {
+				vals = append(vals, naVal{Disp: "\"a\\" + xs + "b\"", URI: "sip:a@b", Bracket: true, Params: []naParam{{"expires", "9", true}}})
+			}
+		}
+		if x > 0x20 && x != 0x7f && strings.IndexByte("<>\",;", byte(x)) < 0 {
+			vals = append(vals, naVal{Disp: "Bob", URI: "sip:u" + xs + "r@h", Bracket: true, Params: []naParam{{"tag", "T", true}}})
+			if x != '=' && x != '*' {
+				vals = append(vals, naVal{URI: "sip:u" + xs + "r@h", Params: []naParam{{"tag", "T", true}}})
+			}
+		}
+		for _, v := range vals {
+			v.Gaps = make([]string, v.nslots())
+			for _, k := range []sipsp.HdrT{sipsp.HdrFrom, sipsp.HdrContact} {
+				run(c, &c09Case{Hdr: int(k), Vals: []naVal{v}, AllCuts: x%16 == 3})
+				run(c, &c09Case{Hdr: int(k), Via: true, Vals: []naVal{v}, ValCap: 2, HdrName: hdrNameFor(k, x%2 == 0)})
+			}
+		}
+	})
 	// every legal way of writing a q value (RFC 3261 qvalue: "0" ["." 0*3DIGIT] / "1" ["." 0*3("0")]), alone and next
 	// to other parameters
 	qforms := []string{"0", "1", "0.", "1.", "0.0", "1.0", "0.00", "1.00", "0.000", "1.000", "0.5", "0.05", "0.005", "0.50", "0.500", "0.123", "0.999", "0.001", "0.01", "0.1"}
